@@ -5,7 +5,7 @@ A session spec is a dict:
   maxdata    int        what the device announces in CNXN
   rid        'plus'|'random'|'high'|int    how the device picks remote ids
   lid0       int        initial value of the host's id counter (None: leave)
-  frag       'whole'|'bytes1'|'random'|'empty'   read fragmentation of the in-memory transport
+  frag       'whole'|'bytes1'|'random'|'empty'|'poll'   read fragmentation of the in-memory transport
   wcap       None|'random'|int  write capacity per call (C15)
   ops        list of op dicts, see run_op()
 """
@@ -83,6 +83,18 @@ def frag_fn(kind, seed):
                 st['e'] += 1
                 return 0
             st['e'] = 0
+            return r.randint(1, max(1, min(n, avail)))
+        return f
+    if kind == 'poll':
+        # a polling (non-blocking) transport: at one point of the stream - wherever the draw lands: before a header, inside one, between
+        # header and payload, inside a payload - it reports "nothing yet" 1500 times in a row, then delivers the rest
+        st = {'at': r.randint(1, 12), 'k': 0, 'run': 0}
+
+        def f(n, avail):
+            st['k'] += 1
+            if st['k'] >= st['at'] and st['run'] < 1500:
+                st['run'] += 1
+                return 0
             return r.randint(1, max(1, min(n, avail)))
         return f
     raise ValueError(kind)
